@@ -572,11 +572,91 @@ def rules(rep, facts):
     # exactly its ABNF production, or text meant to be trimmed becomes content (and vice versa) although the string as a whole is still accepted
     from .rules_c01 import r10_regular_language
     r10_regular_language(rep, g, a, only_prefix='strings::', rid='C02/R12')
+    if 'toml' in facts.crates:
+        r13_value_visit_map(rep, facts, facts.config)
+        if facts.config == 'default':
+            from .core import Facts
+            r13_value_visit_map(rep, Facts('preserve_order'), 'preserve_order')
     if 'toml_datetime' in facts.crates:
         # the serde route hands every date-time over as text and reads it back with Datetime::from_str: what that parser returns is what is decoded
         from .rules_c12 import r4_truncation
         r4_truncation(rep, facts)
         rep.relabel('C12/R4', 'C02/R11', 'date-times keep every field across the serde bridge (text form re-read by the standalone parser): ')
+
+
+def r13_value_visit_map(rep, facts, label):
+    """toml::Value's own visitor builds the table of a map access: entry by entry, in the order the access hands them out"""
+    R = rep.rule('C02/R13', 'the table that `toml::Value` builds from a map access holds exactly the entries handed out, each key with its own value, in the order read (the reference map of the '
+                 'configuration: key-sorted by default, insertion-ordered under preserve_order); a repeated key is refused, an empty access is an empty table.  Evaluated on model '
+                 'accesses with the keys `c`, `a`, `b` / none / `c`, `c`', floor=3)
+    from .den import Evaluator, EvalPanic
+    from .places import MapObj, keyname, deref, SOME, NONE
+    from .dedrive import DeInterp, ok, is_ok
+    d = "<<toml::value::Value as serde::de::Deserialize<'de>>::deserialize::ValueVisitor as serde::de::Visitor<'de>>::visit_map"
+    if not facts.has_body(d):
+        rep.incomplete(R, f'{label}|visit_map', f'`{d}` not found')
+        return
+    b = facts.body(d)
+    sorted_ = 'preserve_order' not in set(facts.crates['toml'].get('features', []))
+
+    class AccessInterp(DeInterp):
+        def _mcall(self, e, env):
+            name = e.get('name') or ''
+            if name in ('next_key_seed', 'next_key', 'next_value', 'next_value_seed', 'next_entry', 'size_hint'):
+                recv = deref(self.val(e['recv'], env))
+                if isinstance(recv, list) and recv and recv[0] == 'map-access':
+                    st = recv[1]
+                    if name == 'next_key_seed':
+                        seed = self.val(e['args'][0], env)
+                        if st['pos'] >= len(st['pairs']):
+                            return ok(('ctor', NONE))
+                        st['want'] = 'value'
+                        r = self.trait_like('serde::de::DeserializeSeed', seed, 'deserialize', [('prim-de', st['pairs'][st['pos']][0])])
+                        return ok(('ctor', SOME, (r[2][0],))) if is_ok(r) else r
+                    if name == 'next_key':
+                        if st['pos'] >= len(st['pairs']):
+                            return ok(('ctor', NONE))
+                        st['want'] = 'value'
+                        return ok(('ctor', SOME, (st['pairs'][st['pos']][0],)))
+                    if name == 'next_value':
+                        if st.get('want') != 'value':
+                            raise EvalPanic('next_value without a key')
+                        st['want'] = 'key'
+                        st['pos'] += 1
+                        return ok(st['pairs'][st['pos'] - 1][1])
+                    if name == 'size_hint':
+                        return ('ctor', SOME, (len(st['pairs']) - st['pos'],))
+                    raise Unanalysable(f'`{name}` on the model map access')
+            return super()._mcall(e, env)
+
+    V = lambda k: ('elem', 'value-of-' + k)
+    for keys, want in ((('c', 'a', 'b'), 'table'), ((), 'empty'), (('c', 'c'), 'refused')):
+        key = f'{label}|{",".join(keys) or "no entries"}'
+        acc = ['map-access', {'pairs': [(k, V(k)) for k in keys], 'pos': 0}]
+        try:
+            r = AccessInterp(Evaluator(facts)).apply_fn(b, [('ctor', d.split(' as ')[0].lstrip('<'), ()), acc])
+        except EvalPanic as ex:
+            rep.bad(R, key, f'`ValueVisitor::visit_map` panics on the keys {list(keys)}: {ex}', facts.loc(b))
+            continue
+        except (Unanalysable, TypeError, IndexError, KeyError, AttributeError) as ex:
+            rep.incomplete(R, key, f'cannot evaluate `ValueVisitor::visit_map` on the keys {list(keys)}: {type(ex).__name__} {ex}', facts.loc(b))
+            continue
+        r = deref(r)
+        if want == 'refused':
+            rep.check(R, key, not is_ok(r), 'a repeated key is refused', f'`ValueVisitor::visit_map` accepts a map access that hands out the key `c` twice: {r!r}'[:300], facts.loc(b))
+            continue
+        got = None
+        if is_ok(r):
+            v = deref(r[2][0])
+            if isinstance(v, tuple) and v[0] == 'ctor' and v[1] == 'toml::value::Value::Table':
+                m = deref(v[2][0])
+                m = deref(m[2].get('map')) if isinstance(m, tuple) and m[0] == 'struct' else m
+                if isinstance(m, MapObj):
+                    got = [(keyname(k), deref(x)) for k, x in m.pairs]
+        ref = [(k, V(k)) for k in (sorted(keys) if sorted_ else keys)]
+        rep.check(R, key, got == ref, f'entries {[k for k, _ in ref]} each with its own value',
+                  f'`ValueVisitor::visit_map` given the entries {list(keys)} in this order builds {got if got is not None else r!r}; the {"key-sorted" if sorted_ else "insertion-ordered"} '
+                  f'reference table holds {ref}'[:600], facts.loc(b))
 
 
 def run(tier):
